@@ -23,12 +23,35 @@ def run_one(m):
                 return m['id'], 'skipped', 'pattern not found in ' + e['file']
             open(p, 'w').write(s.replace(e['old'], e['new'], 1))
         res = []
-        for prop in m.get('props') or ALL:
-            r = subprocess.run([os.path.join(HERE, 'check'), prop, '--repo', d, '--no-evidence', '--tier', 'quick'],
+        if os.environ.get('BENIGN_SEPARATE'):
+            for prop in m.get('props') or ALL:
+                r = subprocess.run([os.path.join(HERE, 'check'), prop, '--repo', d, '--no-evidence', '--tier', 'quick'],
+                                   stdout=subprocess.PIPE, stderr=subprocess.STDOUT, text=True)
+                if r.returncode != 0 or 'INCONCLUSIVE property=' in r.stdout:
+                    lines = [l.strip() for l in r.stdout.splitlines() if l.startswith('  C') or l.startswith('INCONCLUSIVE property')]
+                    res.append('%s exit %d: %s' % (prop, r.returncode, (lines or ['?'])[0][:260]))
+        else:
+            # one process for all the checks of this tree (shared facts and summaries): tools/check_all.py
+            r = subprocess.run([sys.executable, os.path.join(HERE, 'tools', 'check_all.py'), '--repo', d] + list(m.get('props') or ALL),
                                stdout=subprocess.PIPE, stderr=subprocess.STDOUT, text=True)
-            if r.returncode != 0 or 'INCONCLUSIVE property=' in r.stdout:
-                lines = [l.strip() for l in r.stdout.splitlines() if l.startswith('  C') or l.startswith('INCONCLUSIVE property')]
-                res.append('%s exit %d: %s' % (prop, r.returncode, (lines or ['?'])[0][:260]))
+            cur, rc, out = None, 0, []
+            sections = []
+            for l in r.stdout.splitlines():
+                if l.startswith('=== '):
+                    if cur:
+                        sections.append((cur, rc, out))
+                    _, cur, _, rc_ = l.split()
+                    rc, out = int(rc_), []
+                else:
+                    out.append(l)
+            if cur:
+                sections.append((cur, rc, out))
+            if len(sections) != len(m.get('props') or ALL):
+                res.append('check_all exit %d: %s' % (r.returncode if r.returncode else 2, r.stdout[-300:].replace('\n', ' | ')))
+            for prop, rc, out in sections:
+                if rc != 0 or any('INCONCLUSIVE property=' in l for l in out):
+                    lines = [l.strip() for l in out if l.startswith('  C') or l.startswith('INCONCLUSIVE property')]
+                    res.append('%s exit %d: %s' % (prop, rc, (lines or ['?'])[0][:260]))
         st = 'silent' if not res else ('ALARM' if any(' exit 1:' in x for x in res) else 'inconcl')
         return m['id'], st, ' || '.join(res)
     finally:
